@@ -247,6 +247,24 @@ def check_autocorr(ctx):
             ok = items[1].value == 0
             ctx.ob('R4', ff, n, ok, 'normalised by its own lag-0 value' if ok else 'normalised by a lag other than zero')
     if not found:
+        # on symbolic values: x / <column c of x, reshaped to a column>
+        from .common import parse_sx
+        for n in ast.walk(ff.node):
+            if not (isinstance(n, ast.BinOp) and isinstance(n.op, ast.Div)):
+                continue
+            lt = it.sx(n.left)
+            rt = parse_sx(it.sx(n.right), full=True)
+            if rt is None or not lt:
+                continue
+            for sub in ast.walk(rt):
+                if isinstance(sub, ast.Subscript) and norm_text(sub.value) == lt and isinstance(sub.slice, ast.Tuple) and len(sub.slice.elts) >= 2 \
+                        and isinstance(sub.slice.elts[1], ast.Constant) and isinstance(sub.slice.elts[0], ast.Slice) and sub.slice.elts[0].lower is None \
+                        and sub.slice.elts[0].upper is None:
+                    found = True
+                    ok = sub.slice.elts[1].value == 0
+                    ctx.ob('R4', ff, n, ok, 'normalised by its own lag-0 value' if ok else 'normalised by a lag other than zero')
+                    break
+    if not found:
         ctx.ob('R4', ff, 'lag-0 normalisation', None, 'normalisation by the lag-0 column not recognised')
 
 
@@ -283,7 +301,8 @@ def check_real_fft_lengths(ctx, rule, ff, what='autocorrelation'):
             elif odd is True:
                 ctx.ob(rule, ff, i_, False,
                        f'the forward transform has the odd length n = {norm_text(n_fwd)} but np.fft.irfft without n returns 2 * (m - 1) = n - 1 samples: '
-                       f'the inverse is taken on a different grid, so the {what} is not the time-origin average')
+                       f'the inverse is taken on a different grid, so the {what} is not the time-origin average',
+                       key='np.fft.irfft(<power spectrum>) without n after an odd-length forward transform')
             elif odd is False:
                 ctx.ob(rule, ff, i_, True, 'even length: the default inverse length equals n')
             elif arbitrary:
